@@ -316,6 +316,8 @@ def generate_c05(rng, tier):
           "mode": rng.choice(["K1", "K1", "K2", "K2", "K3"])}
     edge = rng.random() < 0.4
     tr["max_factor"] = rng.choice([1.0, 1.0, 1.25, 2.0]) if edge else rng.choice([1.0137, 1.0731, 1.3391, 1.9173])
+    if rng.random() < 0.22:
+        return generate_c05_chunked(rng, tr)
     if tr["mode"] == "K2":
         m = rng.randint(1, 5)
         ids = rng.sample([0, 1, 2, 3, 5, 7, 11, 12, 13, 40, 1000], m)
@@ -334,6 +336,39 @@ def generate_c05(rng, tier):
             f += 0.0137
             tries += 1
         tr["max_factor"] = f
+    return tr
+
+
+def generate_c05_chunked(rng, tr):
+    """K4: a raw history of process(chunk) calls on a batched replica and on its
+    solo replicas (same chunking).  Dwells (plateaus) on purpose, cuts aimed at them."""
+    amp = rng.choice([3, 4, 5, 8])
+    n = rng.choice([4, 6, 8, 10, 14, 20])
+    lv = gen_levels(rng, n, amp)
+    out = []
+    for x in lv:
+        out.append(x)
+        while rng.random() < rng.choice([0.0, 0.3, 0.5]):
+            out.append(x)                     # dwell
+    lv = refine(rng, out, junction=False, density=0.2) if rng.random() < 0.4 else out
+    if len(set(lv)) < 2:
+        lv = lv + [lv[-1] + 1]
+    n = len(lv)
+    # cuts: on / after / inside plateaus and turning points, or random
+    cuts = set()
+    for i in range(1, n):
+        near_dwell = lv[i] == lv[i - 1] or (i + 1 < n and lv[i] == lv[i + 1])
+        p = 0.45 if near_dwell else 0.15
+        if rng.random() < p:
+            cuts.add(i)
+    if not cuts:
+        cuts.add(rng.randint(1, n - 1))
+    m = rng.randint(1, 4)
+    ids = rng.sample([0, 1, 2, 3, 5, 7, 11, 12, 13, 40], m)
+    ratios = [1.0] + [rng.choice([0.5, 2.0, 0.25, 4.0, 3.0, 1.5]) for _ in range(m - 1)]
+    tr.update({"mode": "K4", "levels": lv, "cuts": sorted(cuts), "nodes": [[i, r] for i, r in zip(ids, ratios)],
+               "final_flush": rng.random() < 0.6, "restart_load_step": rng.random() < 0.3, "max_factor": 1.0731,
+               "shared_max": rng.random() < 0.3})
     return tr
 
 
@@ -565,6 +600,9 @@ def exec_c05(trace, out, log):
     kind = trace["law"]
     big = max(abs(x) for x in lv) * step
     mf = float(trace["max_factor"])
+    if mode == "K4":
+        exec_c05_chunked(trace, out, log)
+        return
     # benign junction required (junctions are C04's subject)
     if len(lv) < 2 or len(set(lv)) < 2 or lv[0] == lv[1] or lv[-1] == lv[-2] or \
             not ((lv[-1] - lv[-2]) * (0 - lv[-1]) < 0 and (lv[-1] - lv[-2]) * (lv[0] - lv[-1]) < 0):
@@ -677,6 +715,95 @@ def exec_c05(trace, out, log):
         out.sigs.append("c05|K2|%s|n%d|%s|rows%d" % (kind, m, "shared" if shared else "pernode", min(len(rows_b) // m, 12)))
 
 
+def _feed_chunks(law, chunks, final_flush):
+    rec = FKMNonlinearRecorder()
+    try:
+        det = FKMNonlinearDetector(recorder=rec, notch_approximation_law=law)
+        for q, ch in enumerate(chunks):
+            det.process(ch, flush=(final_flush and q == len(chunks) - 1))
+    except Exception as e:    # noqa
+        raise RealCodeError("process(chunk)", e)
+    return det, rec
+
+
+def exec_c05_chunked(trace, out, log):
+    lv = [int(x) for x in trace["levels"]]
+    step = float(trace["step"])
+    n = len(lv)
+    if n < 2 or len(set(lv)) < 2:
+        return
+    nodes = [(int(i), float(r)) for i, r in trace["nodes"]]
+    cuts = sorted({int(c) for c in trace["cuts"] if 0 < int(c) < n})
+    bounds = [0] + cuts + [n]
+    flush = bool(trace.get("final_flush"))
+    restart = bool(trace.get("restart_load_step"))
+    kind, mat, bins = trace["law"], int(trace["mat"]), int(trace["bins"])
+    big = max(abs(x) for x in lv) * step
+    mf = float(trace["max_factor"])
+    shared = bool(trace.get("shared_max"))
+    ctx = {"levels": lv, "step": step, "cuts": cuts, "nodes": nodes, "final_flush": flush, "law": kind, "mat": mat, "bins": bins}
+    if shared:
+        law_b = get_law(kind, mat, max(r for _, r in nodes) * big * mf, bins)
+    else:
+        law_b = get_law(kind, mat, [(i, big * mf * r) for i, r in nodes], bins)
+    chunks_b = []
+    for a, b in zip(bounds[:-1], bounds[1:]):
+        steps_ = range(0, b - a) if restart else range(a, b)
+        idx = pd.MultiIndex.from_product([steps_, [i for i, _ in nodes]], names=["load_step", "node_id"])
+        chunks_b.append(pd.Series([lv[k] * step * r for k in range(a, b) for _, r in nodes], index=idx, dtype=np.float64))
+    detb, recb = _feed_chunks(law_b, chunks_b, flush)
+    rows_b = collective_rows(recb)
+    out.steps += len(chunks_b)
+    out.count("op:process_chunk", len(chunks_b))
+    out.count("probe:chunked_batch_nodes", len(nodes))
+    # was a cut placed inside or right after a dwell that is a turning point?
+    revs = {i for i, _ in rref.interior_reversals([float(x) for x in lv])}
+    for c in cuts:
+        if lv[c - 1] == lv[c] or (c >= 2 and lv[c - 1] == lv[c - 2]):
+            j = c - 1
+            while j > 0 and lv[j - 1] == lv[c - 1]:
+                j -= 1
+            if j in revs:
+                out.count("probe:cut_in_or_after_reversal_dwell")
+                break
+    log.add("K4", [[r[k] for k in COLS] for r in rows_b])
+    m = len(nodes)
+    for j, (nid, ratio) in enumerate(nodes):
+        if shared:
+            law_s, tol = law_b, TOL
+        else:
+            law_s, tol = slice_law(law_b, nid), TOL
+            if law_s is None:
+                law_s, tol = get_law(kind, mat, big * mf * ratio, bins), 2e-3
+        chunks_s = [np.array([lv[k] * step * ratio for k in range(a, b)], dtype=np.float64) for a, b in zip(bounds[:-1], bounds[1:])]
+        dets, recs = _feed_chunks(law_s, chunks_s, flush)
+        rows_s = collective_rows(recs)
+        out.steps += len(chunks_s)
+        mine = [r for r in rows_b if r["_idx"][1] == j]
+        if not compare_rows(mine, rows_s, "K2-batch-equals-solo", out, dict(ctx, node=nid, ratio=ratio, position=j, chunked=True), tol=tol):
+            return
+        if j == 0:
+            # the solo replica of the first point against the scalar reference; pass numbers =
+            # number of the process() call in which the turning point is decided
+            s_ = [x * step * ratio for x in lv]
+            pts = rref.interior_reversals(s_)
+            runs_ = rref.runs_of(s_)
+            decide = {}
+            for v, a_, b_ in runs_:
+                decide[a_] = b_ + 1
+            ref = HcmRef(ScalarLaw(law_s))
+            import bisect
+            for i_, v in pts:
+                call = bisect.bisect_right(bounds, decide[i_]) if decide[i_] < n else len(bounds) - 1
+                ref.feed(v, call)
+            if flush:
+                ref.feed(s_[-1], len(bounds) - 1)
+            if not compare_rows(rows_s, ref.rows, "K1-reference", out, dict(ctx, chunked=True)):
+                return
+    if rows_b:
+        out.sigs.append("c05|K4|%s|n%d|chunks%d|rows%d|%s" % (kind, m, min(len(chunks_b), 6), min(len(rows_b) // m, 10), "flush" if flush else "noflush"))
+
+
 # ------------------------------------------------------------------ shrink / classify / describe
 
 def shrink(prop, trace):
@@ -696,6 +823,11 @@ def shrink(prop, trace):
         for cand in core.drop_chunks(trace["twin"], 2):
             t = copy.deepcopy(trace)
             t["twin"] = cand
+            yield t
+    if trace.get("cuts"):
+        for cand in core.drop_chunks(trace["cuts"], 1):
+            t = copy.deepcopy(trace)
+            t["cuts"] = cand
             yield t
     if trace.get("batch"):
         t = copy.deepcopy(trace)
@@ -822,8 +954,8 @@ def describe(prop):
                      "lock-step solo replicas for the batch comparison"],
             "rule": ("one run = one seeded load sequence with a benign junction, one law (ExtendedNeuber|SeegerBeste, 4 material sets, 20-200 bins, class-edge or off-edge maximum), mode K1: every column of recorder.collective and the visited strain values "
                      "(all, first run, second run) equal the scalar reference stepped over the reversals of [0]+s+s; K2: 1-5 proportional points processed in one batched replica (per-node or shared binning maxima, arbitrary node ids) "
-                     "equal their solo replicas row by row; K3: the replica fed -s mirrors stresses/strains. distinct_nontrivial counts distinct (mode, law, Memory-1/2/3 event counts, row count) resp. (batch size, binning mode, row count)."),
+                     "equal their solo replicas row by row; K3: the replica fed -s mirrors stresses/strains; K4 (22% of runs): a raw history of process(chunk[, flush]) calls with dwells and cuts aimed at them on a batched replica equals the solo replicas under the same chunking, and the first solo replica equals the reference. distinct_nontrivial counts distinct (mode, law, Memory-1/2/3 event counts, row count) resp. (batch size, binning mode, row count)."),
             "assumptions": ["benign junctions only (junctions are C04's subject)", "floats compared to 1e-9 relative to the column scale; flags and pass numbers exactly",
                             "K2 uses binning maxima that keep every load, load difference and doubled load off the class edges for every node (the batch picks the class from its first node)",
                             "models/hcm_ref.py is trusted; the law's scalar and Series interfaces are assumed to agree (checked indirectly by K1)"],
-            "required_probes": ["probe:M1", "probe:M2", "probe:M3", "probe:memory2_chain", "probe:batch_nodes", "twin:neg"]}
+            "required_probes": ["probe:M1", "probe:M2", "probe:M3", "probe:memory2_chain", "probe:batch_nodes", "twin:neg", "op:process_chunk", "probe:cut_in_or_after_reversal_dwell"]}
